@@ -598,7 +598,7 @@ func (e *Enc) encodeOnce() (err error) {
 	if e.fc != nil {
 		for _, c := range e.fc.Requires {
 			ctx := e.ctxEntry(entry)
-			t := ctx.evalBool(c)
+			t := e.factOf(ctx, c)
 			e.assume(t)
 		}
 	}
@@ -834,12 +834,12 @@ func (e *Enc) enterLoop(h *ssa.BasicBlock, li *loopInfo, fpreds []*ssa.BasicBloc
 		for i, c := range lc.Invariants {
 			ctx := e.ctxAt(merged, h, 0)
 			ctx.headerOf = li
-			goal := ctx.evalBool(c)
+			goal, src := e.goalOf(ctx, c)
 			nm := c.Name
 			if nm == "" {
 				nm = fmt.Sprint(i)
 			}
-			e.oblige("inv-entry", fmt.Sprintf("L%d/%s", li.ordinal, nm), fmt.Sprintf("L%d/%s", li.ordinal, nm), entryGuard, goal, h.Instrs[0].Pos(), c.Src)
+			e.oblige("inv-entry", fmt.Sprintf("L%d/%s", li.ordinal, nm), fmt.Sprintf("L%d/%s", li.ordinal, nm), entryGuard, goal, h.Instrs[0].Pos(), src)
 		}
 		for k := range e.override {
 			delete(e.override, k)
@@ -907,7 +907,7 @@ func (e *Enc) enterLoop(h *ssa.BasicBlock, li *loopInfo, fpreds []*ssa.BasicBloc
 		for _, c := range lc.Invariants {
 			ctx := e.ctxAt(st, h, 0)
 			ctx.headerOf = li
-			e.assume(fmt.Sprintf("(=> %s %s)", r, ctx.evalBool(c)))
+			e.assume(fmt.Sprintf("(=> %s %s)", r, e.factOf(ctx, c)))
 		}
 	} else {
 		e.note(fmt.Sprintf("loop L%d of %s has no invariant (havoc only)", li.ordinal, e.key))
@@ -965,12 +965,12 @@ func (e *Enc) leaveLoop(from *ssa.BasicBlock, li *loopInfo, st *State) {
 	for i, c := range lc.Invariants {
 		ctx := e.ctxAt(st, from, len(from.Instrs)-1)
 		ctx.headerOf = li
-		goal := ctx.evalBool(c)
+		goal, src := e.goalOf(ctx, c)
 		nm := c.Name
 		if nm == "" {
 			nm = fmt.Sprint(i)
 		}
-		e.oblige("inv-keep", fmt.Sprintf("L%d/%s@b%d", li.ordinal, nm, from.Index), fmt.Sprintf("L%d/%s", li.ordinal, nm), guard, goal, from.Instrs[len(from.Instrs)-1].Pos(), c.Src)
+		e.oblige("inv-keep", fmt.Sprintf("L%d/%s@b%d", li.ordinal, nm, from.Index), fmt.Sprintf("L%d/%s", li.ordinal, nm), guard, goal, from.Instrs[len(from.Instrs)-1].Pos(), src)
 	}
 	for k := range e.override {
 		delete(e.override, k)
@@ -980,9 +980,12 @@ func (e *Enc) leaveLoop(from *ssa.BasicBlock, li *loopInfo, st *State) {
 		ctx := e.ctxAt(st, from, len(from.Instrs)-1)
 		ctx.old = li.headerSt
 		ctx.stepOf = li
-		when := ctx.evalBool(sc.When)
-		goal := ctx.evalBool(sc.Ensures)
-		e.oblige("step", fmt.Sprintf("L%d/%s@b%d", li.ordinal, sc.Name, from.Index), fmt.Sprintf("L%d/%s", li.ordinal, sc.Name), fmt.Sprintf("(and %s %s)", guard, when), goal, from.Instrs[len(from.Instrs)-1].Pos(), sc.Ensures.Src)
+		when, wsrc := e.goalOf(ctx, sc.When)
+		goal, src := e.goalOf(ctx, sc.Ensures)
+		if when == "false" && wsrc != sc.When.Src {
+			when, goal, src = "true", "false", wsrc
+		}
+		e.oblige("step", fmt.Sprintf("L%d/%s@b%d", li.ordinal, sc.Name, from.Index), fmt.Sprintf("L%d/%s", li.ordinal, sc.Name), fmt.Sprintf("(and %s %s)", guard, when), goal, from.Instrs[len(from.Instrs)-1].Pos(), src)
 	}
 }
 
